@@ -906,4 +906,109 @@ Section RT.
     rewrite (rt_cond e (wf_RT e H) _ HF HM (fun i _ => HB i) HC).
     rewrite skip_head by (reflexivity || discriminate). reflexivity.
   Qed.
+
+  (* ---- the binding parser around the expression ---- *)
+  Definition no_sep_head (s : str) : Prop := forall c q, skip s = c :: q -> c <> 58%N /\ c <> 44%N.
+
+  Lemma is_object_inner_ws : forall t c s, is_ws c = true -> is_object_inner t (c :: s) = is_object_inner t s.
+  Proof. intros t c s H. unfold is_object_inner, field_name. rewrite (skip_ws c s H). reflexivity. Qed.
+
+  Lemma noi_ident : forall x tail, is_ident x = true -> follow_id tail -> no_sep_head tail ->
+    is_object_inner false (x ++ tail) = false.
+  Proof.
+    intros x tail Hx Ht Hn. unfold is_object_inner. rewrite (field_name_ident x tail Hx Ht).
+    destruct (skip tail) as [|c q] eqn:E; [reflexivity|]. destruct (Hn c q E) as [H1 H2].
+    apply N.eqb_neq in H1, H2. rewrite H1, H2. reflexivity.
+  Qed.
+
+  Lemma noi_other : forall s c q, skip s = c :: q -> is_ident_start c = false -> c <> 46%N -> is_object_inner false s = false.
+  Proof.
+    intros s c q Hs Hc H46. unfold is_object_inner, field_name. rewrite Hs, Hc.
+    change (lit "...") with [46%N; 46%N; 46%N]. cbn [starts_with].
+    apply N.eqb_neq in H46. rewrite N.eqb_sym in H46. rewrite H46. reflexivity.
+  Qed.
+
+  Lemma noi_head : forall c q, is_ws c = false -> c <> 47%N -> is_ident_start c = false -> c <> 46%N ->
+    is_object_inner false (c :: q) = false.
+  Proof. intros c q Hw H47 Hi H46. apply (noi_other (c :: q) c q); [apply skip_head; assumption|exact Hi|exact H46]. Qed.
+
+  Lemma op_skip_head : forall op x, head_is opstart x -> no_sep_head (sx_binop_text op ++ x) /\ follow_id (sx_binop_text op ++ x).
+  Proof.
+    intros op [|d x0] Hd; [contradiction|]. cbn [head_is] in Hd. split.
+    - intros c q. destruct op; cbn [sx_binop_text binop_text]; cbn;
+        try (rewrite skip_stable by stab; intro E; injection E as <- _; split; discriminate).
+      rewrite skip_ws by reflexivity. rewrite skip_stable by stab. intro E; injection E as <- _; split; discriminate.
+    - destruct op; reflexivity.
+  Qed.
+
+  Lemma noi_sub : forall e a tail, (forall t, follow_id t -> no_sep_head t -> is_object_inner false (pr e ++ t) = false) ->
+    follow_id tail -> no_sep_head tail -> is_object_inner false (sub e a ++ tail) = false.
+  Proof.
+    intros e a tail H Ht Hn. destruct (a <? sx_level e)%N eqn:E.
+    - rewrite (sub_paren e a E). apply noi_head; (reflexivity || discriminate).
+    - rewrite (sub_plain e a E). apply H; assumption.
+  Qed.
+
+  Lemma no_sep_cons : forall c q, is_ws c = false -> c <> 47%N -> c <> 58%N -> c <> 44%N -> no_sep_head (c :: q).
+  Proof. intros c q Hw H47 H58 H44 c' q' E. rewrite skip_head in E by assumption. injection E as <- _. split; assumption. Qed.
+
+  Lemma noi : forall e, wf e -> forall tail, follow_id tail -> no_sep_head tail -> is_object_inner false (pr e ++ tail) = false.
+  Proof.
+    induction e; intros H tail Ht Hn; cbn [wf] in H; try contradiction.
+    - apply ok_name_spec in H. destruct H as [H _]. change (pr (EField x)) with x. apply noi_ident; assumption.
+    - change (pr EUndef) with (lit "undefined"). apply noi_ident; [reflexivity|assumption|assumption].
+    - change (pr ENull) with (lit "null"). apply noi_ident; [reflexivity|assumption|assumption].
+    - change (pr (EStr s)) with (wx_lit_str s). unfold wx_lit_str. cbn [app]. apply noi_head; (reflexivity || discriminate).
+    - destruct H as [H _]. pose proof (num_head z H) as Hh. change (pr (EInt z)) with (z_to_str z).
+      destruct (z_to_str z) as [|d r]; [contradiction|]. cbn in Hh. cbn [app]. apply noi_head; chars2.
+    - destruct b; [change (pr (EBool true)) with (lit "true")|change (pr (EBool false)) with (lit "false")];
+        (apply noi_ident; [reflexivity|assumption|assumption]).
+    - rewrite pr_obj. change (lit "{") with [123%N]. cbn [app]. apply noi_head; (reflexivity || discriminate).
+    - rewrite pr_arr. change (lit "[") with [91%N]. cbn [app]. apply noi_head; (reflexivity || discriminate).
+    - (* EMember *) rewrite pr_member', <- app_assoc. cbn [app]. destruct H as [H _].
+      assert (Ht' : follow_id (46%N :: k ++ tail)) by reflexivity.
+      assert (Hn' : no_sep_head (46%N :: k ++ tail)) by (apply no_sep_cons; (reflexivity || discriminate)).
+      destruct e; try (apply noi_sub; [intros t Ht2 Hn2; apply IHe; assumption|exact Ht'|exact Hn']).
+      + unfold objtext. change (lit "(") with [40%N]. cbn [app]. apply noi_head; (reflexivity || discriminate).
+      + cbn in H. contradiction.
+    - rewrite pr_index. change (lit "[") with [91%N]. rewrite <- !app_assoc. cbn [app].
+      apply noi_sub; [intros t Ht2 Hn2; apply IHe1; tauto|reflexivity|apply no_sep_cons; (reflexivity || discriminate)].
+    - rewrite pr_call. change (lit "(") with [40%N]. rewrite <- !app_assoc. cbn [app].
+      apply noi_sub; [intros t Ht2 Hn2; apply IHe; tauto|reflexivity|apply no_sep_cons; (reflexivity || discriminate)].
+    - (* EUn *) rewrite pr_un, <- app_assoc. destruct op; cbn [unop_text].
+      + change (lit "!") with [33%N]. cbn [app]. apply noi_head; (reflexivity || discriminate).
+      + change (lit "~") with [126%N]. cbn [app]. apply noi_head; (reflexivity || discriminate).
+      + change (lit " +") with [32%N; 43%N]. cbn [app]. rewrite is_object_inner_ws by reflexivity.
+        apply noi_head; (reflexivity || discriminate).
+      + change (lit " -") with [32%N; 45%N]. cbn [app]. rewrite is_object_inner_ws by reflexivity.
+        apply noi_head; (reflexivity || discriminate).
+      + change (lit " typeof ") with (32%N :: lit "typeof" ++ [32%N]). cbn [app]. rewrite is_object_inner_ws by reflexivity.
+        rewrite <- app_assoc. apply noi_ident; [reflexivity|reflexivity|].
+        intros c q E. cbn [app] in E. rewrite skip_ws in E by reflexivity.
+        destruct (L_Unary <? sx_level e)%N eqn:El.
+        * rewrite (sub_paren e _ El) in E. rewrite skip_head in E by (reflexivity || discriminate). injection E as <- _. split; discriminate.
+        * rewrite (sub_plain e _ El) in E. destruct (skip_pr e H tail) as [c0 [q0 [Hs Hc0]]]. rewrite Hs in E. injection E as <- _. chars2.
+      + change (lit " void ") with (32%N :: lit "void" ++ [32%N]). cbn [app]. rewrite is_object_inner_ws by reflexivity.
+        rewrite <- app_assoc. apply noi_ident; [reflexivity|reflexivity|].
+        intros c q E. cbn [app] in E. rewrite skip_ws in E by reflexivity.
+        destruct (L_Unary <? sx_level e)%N eqn:El.
+        * rewrite (sub_paren e _ El) in E. rewrite skip_head in E by (reflexivity || discriminate). injection E as <- _. split; discriminate.
+        * rewrite (sub_plain e _ El) in E. destruct (skip_pr e H tail) as [c0 [q0 [Hs Hc0]]]. rewrite Hs in E. injection E as <- _. chars2.
+    - (* EBin *) rewrite pr_bin, <- !app_assoc. destruct H as [Hl Hr].
+      destruct (op_skip_head op (sub e2 (sx_right op) ++ tail) (sub_head_wf e2 _ tail Hr)) as [Hn' Ht'].
+      apply noi_sub; [intros t Ht2 Hn2; apply IHe1; assumption|exact Ht'|exact Hn'].
+    - (* ECond *) rewrite pr_cond. change (lit "?") with [63%N]. rewrite <- !app_assoc. cbn [app].
+      apply noi_sub; [intros t Ht2 Hn2; apply IHe1; tauto|reflexivity|apply no_sep_cons; (reflexivity || discriminate)].
+  Qed.
+
+  Theorem print_parse_binding : forall e, wf e -> forall rest,
+    ExprParse.binding false (pr e ++ 125%N :: 125%N :: rest) = (Some e, rest).
+  Proof.
+    intros e H rest. unfold ExprParse.binding.
+    destruct (skip_pr e H (125%N :: 125%N :: rest)) as [c [q [Hs Hc]]]. rewrite Hs.
+    replace (starts_with (lit "}}") (c :: q)) with false
+      by (change (lit "}}") with [125%N; 125%N]; cbn [starts_with]; replace (125 =? c)%N with false by chars2; reflexivity).
+    unfold parse_top. rewrite (noi e H); [|reflexivity|apply no_sep_cons; (reflexivity || discriminate)].
+    rewrite (print_parse_cond e H rest). reflexivity.
+  Qed.
 End RT.
